@@ -3,6 +3,9 @@
 import json, os
 HOOK_COMMITS = ["1d323e3"]
 CHECKS = {
+ "C04": dict(cat="fault_enumeration", tech="runtime monitoring: planted-fault enumeration over generated try/catch/finally skeletons, differential monitor against the executable reference model, residue invariant at the VM state hook",
+   text="About 100 000 seeded skeletons per quick run: try expressions nested to depth 3 with typed catches, finally and rethrowing handlers; faults of nine kinds planted directly, 1-3 calls deep, inside native callbacks (each / keep / fold / consume), inside generator bodies and inside string interpolation; progress lists make the state at the throw point and the finally executions visible. The reference model decides handler selection, finally value, surviving state and the uncaught message; the runs must also leave the VM quiescent (hook H1/H2) and raise no VM-monitor fault or panic.",
+   note="Trusted: reference model of exception semantics and printer. Recorded defect shapes F-B1 (finally vs control flow), F-B2, F-B5 are excluded from generation and replayed as witnesses.", ref="4 C04"),
  "C03": dict(cat="exploration", tech="runtime monitoring: differential monitor against the executable reference model + context relation + bounded-exhaustive subject x pattern grid",
    text="About 110 000 seeded match / unpacking programs per quick run (traced subjects, all pattern forms, alternatives, guards, two subjects, used and ignored results; multi-assignment and for-argument unpacking over every iterable shape) are evaluated by the reference model and by the real implementation in three contexts; a grid of 19 subjects x 41 patterns x guards and x second patterns (about 13 000 cells after shape guards, all enumerated) prints the arm taken and its bindings.",
    note="Trusted: reference model matcher and printer (0 residual disagreements on 19 000 calibration programs). Recorded defect shapes F-A2/A4/A5/A7/A8 are excluded from generation and replayed as witnesses.", ref="4 C03"),
